@@ -139,8 +139,12 @@ func newCTCP() *CTCP {
 // call executes the necessary CTCP handler for the incoming event/CTCP
 // command.
 func (c *CTCP) call(client *Client, event *CTCPEvent) {
+	// Look the handlers up under the lock, but run them without it: handlers
+	// may call back into the client (e.g. CTCP.Set/Clear).
 	c.mu.RLock()
-	defer c.mu.RUnlock()
+	wildcard, hasWildcard := c.handlers["*"]
+	handler, ok := c.handlers[event.Command]
+	c.mu.RUnlock()
 
 	// If they want to catch any panics, add to defer stack.
 	if client.Config.RecoverFunc != nil && event.Origin != nil {
@@ -149,11 +153,11 @@ func (c *CTCP) call(client *Client, event *CTCPEvent) {
 
 	// Support wildcard CTCP event handling. Gets executed first before
 	// regular event handlers.
-	if _, ok := c.handlers["*"]; ok {
-		c.handlers["*"](client, *event)
+	if hasWildcard {
+		wildcard(client, *event)
 	}
 
-	if _, ok := c.handlers[event.Command]; !ok {
+	if !ok {
 		// If ACTION, don't do anything.
 		if event.Command == CTCP_ACTION {
 			return
@@ -166,7 +170,7 @@ func (c *CTCP) call(client *Client, event *CTCPEvent) {
 		return
 	}
 
-	c.handlers[event.Command](client, *event)
+	handler(client, *event)
 }
 
 // parseCMD parses a CTCP command/tag, ensuring it's valid. If not, an empty
